@@ -120,8 +120,14 @@ def check_value(names, acc, do_stack=True, case=None, sep=" and "):
     # ---- function pair
     acc.trace()
     try:
-        p1 = parts_list(value)
+        p1_live = parts_list(value)
+        p1 = copy.deepcopy(p1_live)
         merged = " and ".join(p.merge_last_name_first for p in p1)
+        # the parsed parts belong to the caller: editing them (abbreviating, decoding in place, ...) before the merged
+        # text is split again must not change what that split returns
+        for p in p1_live:
+            p.first[:] = [w[:1] + "." for w in p.first]
+            p.last.append("<edited>")
         p2 = parts_list(merged)
     except Exception as e:
         acc.exception(e, case, "split/parse/merge", size=len(value))
